@@ -21,8 +21,11 @@ func runDecryptBinding(c *Ctx, n int) {
 	nb := time.Date(2024, 3, 1, 0, 0, 0, 0, time.UTC)
 	na := time.Date(2024, 9, 1, 0, 0, 0, 0, time.UTC)
 	spShort := newCert("sp-enc-short", rsaKey("spenc"), nb, na)
+	// the same key pair under a certificate that expired before every clock position used below
+	spExpired := newCert("sp-enc-short", rsaKey("spenc"), nb.AddDate(-1, 0, 0), nb.AddDate(0, 0, -2))
 	var sp *saml2.SAMLServiceProvider
 	var certKind string
+	effCert := spShort // the certificate the SP decrypts under (a key set through SetSPKeyStore takes precedence)
 	for k := 0; k < n; k++ {
 		r := c.R
 		if sp == nil || k%12 == 0 {
@@ -30,8 +33,20 @@ func runDecryptBinding(c *Ctx, n int) {
 			g0 := &xgen{r: r, now: nb.Add(24 * time.Hour)}
 			sp = g0.newSPFor([]*KeyPair{w.IdP1}, g0.now)
 			sp.ValidateEncryptionCert = r.Intn(4) != 0
-			certKind = pick(r, "ok", "ok", "ok", "ok", "empty", "garbage")
+			certKind = pick(r, "ok", "ok", "ok", "ok", "empty", "garbage", "override-expired+field-leaf", "override-garbage+field-leaf")
+			effCert = spShort
 			switch certKind {
+			case "override-expired+field-leaf", "override-garbage+field-leaf":
+				// deprecated field: a valid certificate with its parsed Leaf; setter: the same key under an expired / unparsable
+				// certificate.  The setter takes precedence, so it is ITS certificate that must be valid.
+				sp.SPKeyStore = dsig.TLSCertKeyStore(tls.Certificate{Certificate: [][]byte{spShort.DER}, PrivateKey: spShort.Key, Leaf: spShort.Cert})
+				if certKind == "override-expired+field-leaf" {
+					sp.SetSPKeyStore(&saml2.KeyStore{Signer: spShort.Key, Cert: spExpired.DER})
+					effCert = spExpired
+				} else {
+					sp.SetSPKeyStore(&saml2.KeyStore{Signer: spShort.Key, Cert: []byte("not a certificate")})
+					effCert = nil
+				}
 			case "ok":
 				if r.Intn(2) == 0 {
 					sp.SPKeyStore = spShort.KeyStore()
@@ -49,6 +64,9 @@ func runDecryptBinding(c *Ctx, n int) {
 		pos := r.Intn(7)
 		now := []time.Time{nb.Add(-time.Hour), nb.Add(-time.Nanosecond), nb, nb.Add(30 * 24 * time.Hour), na, na.Add(time.Nanosecond), na.Add(time.Hour)}[pos]
 		inWindow := !now.Before(nb) && !now.After(na)
+		if certKind == "override-expired+field-leaf" {
+			inWindow = false // every position lies after spExpired's NotAfter
+		}
 		sp.Clock = dsig.NewFakeClockAt(now)
 		g := &xgen{r: r, now: now}
 		rs := g.okResponseSpec(1)
@@ -61,6 +79,9 @@ func runDecryptBinding(c *Ctx, n int) {
 			eo.EmbedCert = nil
 		case 1, 2:
 			eo.EmbedCert = spShort
+			if effCert != nil {
+				eo.EmbedCert = effCert
+			}
 		default:
 			eo.EmbedCert = []*KeyPair{w.Other, w.SPEnc, w.IdP1}[r.Intn(3)] // a certificate that is not the SP's
 		}
@@ -87,10 +108,11 @@ func runDecryptBinding(c *Ctx, n int) {
 		}
 		raw, _ := doc.WriteToBytes()
 		enc := b64(raw)
-		foreign := eo.EmbedCert != nil && eo.EmbedCert != spShort
-		mustRefuse := foreign || (sp.ValidateEncryptionCert && (!inWindow || certKind != "ok"))
+		foreign := eo.EmbedCert != nil && eo.EmbedCert != effCert
+		parsable := certKind == "ok" || certKind == "override-expired+field-leaf"
+		mustRefuse := foreign || (sp.ValidateEncryptionCert && (!inWindow || !parsable))
 		// with a broken certificate and validation off, an embedded recipient certificate can never match
-		if certKind != "ok" && eo.EmbedCert != nil {
+		if !parsable && eo.EmbedCert != nil {
 			mustRefuse = true
 		}
 		labels := []string{fmt.Sprintf("validate-enc-cert=%v", sp.ValidateEncryptionCert), "sp-cert=" + certKind, fmt.Sprintf("clock-pos=%d", pos),
@@ -131,6 +153,40 @@ func runDecryptBinding(c *Ctx, n int) {
 		}
 		if !mustRefuse && !accepted {
 			c.Violate("spec", "bind:refused-valid", "decryption refused although the SP key is valid and the recipient matches: "+err.Error(), replay)
+		}
+		// the SAME message, which this SP has just decrypted, presented to a service provider holding ANOTHER key pair
+		// (a second SP object; and, on the last call of its lifetime, this SP after it was re-keyed): nothing learnt from the
+		// first decryption may make it succeed
+		if accepted && !mustRefuse {
+			try := func(who string, other *saml2.SAMLServiceProvider) {
+				ok2 := false
+				func() {
+					defer func() { recover() }()
+					resp, err2 := other.ValidateEncodedResponse(enc)
+					ok2 = err2 == nil && resp != nil
+				}()
+				c.Count("bind:foreign-key-replay:" + who)
+				if ok2 {
+					rp := map[string]interface{}{}
+					for k, v := range replay {
+						rp[k] = v
+					}
+					rp["history"] = "the message was first decrypted by the SP it is encrypted to, then presented to " + who + " holding another key pair"
+					c.Violate("spec", "bind:decrypted-with-foreign-key", "an assertion encrypted to another key pair was decrypted by "+who, rp)
+				}
+			}
+			if r.Intn(2) == 0 {
+				g2 := &xgen{r: r, now: now}
+				other := g2.newSPFor([]*KeyPair{w.IdP1}, now)
+				other.SPKeyStore = w.Other.KeyStore()
+				try("a second SP object", other)
+			}
+			if k%12 == 11 {
+				sp.SPKeyStore = nil
+				sp.SetSPKeyStore(&saml2.KeyStore{Signer: w.Other.Key, Cert: w.Other.DER})
+				sp.ValidateEncryptionCert = false
+				try("the same SP object after re-keying through SetSPKeyStore", sp)
+			}
 		}
 	}
 }
